@@ -7,6 +7,47 @@ from fortls.constants import KEYWORD_ID_DICT, KEYWORD_LIST, FRegex, sort_keyword
 from fortls.ftypes import Range
 
 
+def literal_spans(line: str) -> list[Range]:
+    """Find the (terminated) character literals of a line, each delimited by
+    the kind of quote that opens it; the other kind is ordinary text inside it
+
+    Examples
+    --------
+    >>> literal_spans("a = 'say \\"hi\\"' // c")
+    [Range(start=4, end=14)]
+    """
+    spans = []
+    quote = None
+    start = 0
+    for i, char in enumerate(line):
+        if quote is not None:
+            if char == quote:
+                spans.append(Range(start, i + 1))
+                quote = None
+        elif char in ("'", '"'):
+            quote = char
+            start = i
+    return spans
+
+
+def find_comment_start(line: str) -> int:
+    """Index of the ``!`` that starts a trailing comment, ignoring any ``!``
+    inside a character literal; -1 if there is none
+
+    Examples
+    --------
+    >>> find_comment_start("print *, 'a ! b', c ! comment")
+    20
+    """
+    spans = literal_spans(line)
+    i = line.find("!")
+    while i >= 0:
+        if not any(span.start <= i < span.end for span in spans):
+            return i
+        i = line.find("!", i + 1)
+    return -1
+
+
 def expand_name(line: str, char_pos: int) -> str:
     """Get full word containing given cursor position
 
@@ -24,14 +65,14 @@ def expand_name(line: str, char_pos: int) -> str:
     """
     # The order here is important.
     # WORD will capture substrings in logical and strings
-    regexs = [
-        FRegex.LOGICAL,
-        FRegex.SQ_STRING,
-        FRegex.DQ_STRING,
-        FRegex.WORD,
-        FRegex.NUMBER,
-    ]
-    for r in regexs:
+    for num_match in FRegex.LOGICAL.finditer(line):
+        if num_match.start(0) <= char_pos <= num_match.end(0):
+            return num_match.group(0)
+    # Character literals are delimited by the quote that opens them
+    for span in literal_spans(line):
+        if span.start <= char_pos <= span.end:
+            return line[span.start : span.end]
+    for r in (FRegex.WORD, FRegex.NUMBER):
         for num_match in r.finditer(line):
             if num_match.start(0) <= char_pos <= num_match.end(0):
                 return num_match.group(0)
